@@ -1,6 +1,6 @@
 (* C16 — Generated Spec file names are confined; write and remove are symmetric. *)
 From Coq Require Import String Ascii List Bool.
-From CDI Require Import Base Parser ParserProofs Paths PathsProofs.
+From CDI Require Import Base SpecModel Parser ParserProofs Paths PathsProofs Cache CacheProofs.
 Import ListNotations.
 Open Scope string_scope.
 
@@ -37,6 +37,17 @@ Proof. exact write_path_from_target. Qed.
 Print Assumptions C16_write_path_from_target.
 (* C16_partial: that with_default_ext (clean p) = p for every target path (idempotence of Clean on its own output)
    is not proved here; it is covered by the correspondence (write then remove on real directories). *)
+
+(* after a refresh the written Spec's devices resolve to it: a file whose priority is the highest of all loaded files
+   (it lies in the last configured directory) wins for every device it defines, unless another file of that same
+   directory defines the device too *)
+Theorem C16_resolves_to_written : forall n a f b,
+  defines n f = true ->
+  (forall g, In g (a ++ b)%list -> lf_prio g <= lf_prio f) ->
+  (forall g, In g (a ++ b)%list -> lf_prio g = lf_prio f -> defines n g = false) ->
+  exists d, def_in f n (s_devices (lf_spec f)) = Some d /\ resolve_spec (a ++ f :: b)%list n = Some (mkCdev f d).
+Proof. exact top_unique_resolves. Qed.
+Print Assumptions C16_resolves_to_written.
 
 Example C16_write_path_example :
   write_path ["/etc/cdi"; "/var/run//cdi/"] (generate_transient_spec_name "vendor.com" "gpu" "pod/ctr") =
